@@ -3,6 +3,8 @@
 package rigs
 
 import (
+	"archive/tar"
+	"archive/zip"
 	"bytes"
 	"compress/gzip"
 	"crypto/sha1"
@@ -52,25 +54,26 @@ type pscript struct {
 }
 
 type sreq struct {
-	id      string
-	site    string // s (full config) | t (twin without gzip)
-	method  string
-	path    string
-	query   string
-	target  string // request target sent instead of path?query (C19: absolute-form, authority-form)
-	json    bool   // the upload is labelled application/json (its body may be logged)
-	lim     int    // body limit applying to the path (0 = none)
-	hdrs    [][2]string
-	body    []byte
-	chunked bool
-	ae      string
-	auth    bool
-	script  *pscript
-	twin    *sreq
-	conn    *hclient
-	idx     int // index of this request on its connection
-	resp    *sim.Resp
-	noLog   bool // outside every log scope / excepted
+	id        string
+	site      string // s (full config) | t (twin without gzip)
+	method    string
+	path      string
+	query     string
+	target    string // request target sent instead of path?query (C19: absolute-form, authority-form)
+	archiveOf string // "zip" | "tar": the directory listing is asked for as an archive
+	json      bool   // the upload is labelled application/json (its body may be logged)
+	lim       int    // body limit applying to the path (0 = none)
+	hdrs      [][2]string
+	body      []byte
+	chunked   bool
+	ae        string
+	auth      bool
+	script    *pscript
+	twin      *sreq
+	conn      *hclient
+	idx       int // index of this request on its connection
+	resp      *sim.Resp
+	noLog     bool // outside every log scope / excepted
 }
 
 type siteRig struct {
@@ -84,6 +87,7 @@ type siteRig struct {
 	errFile     string
 	hasLog      bool
 	logExcept   string
+	archive     bool // C12: browse /pub with servearchive; the directory holds a symbolic link
 	log2        bool // C20: a second log directive (scope /p, own file, no except)
 	hasGzip     bool
 	gzLevel     int
@@ -282,6 +286,34 @@ func (r *siteRig) probe(label string, next httpserver.Handler, w http.ResponseWr
 	return 0, nil
 }
 
+// validArchive: the bytes parse as an archive of the given kind that holds the directory's regular files.
+func validArchive(kind string, b []byte) bool {
+	names := map[string]bool{}
+	switch kind {
+	case "zip":
+		zr, err := zip.NewReader(bytes.NewReader(b), int64(len(b)))
+		if err != nil {
+			return false
+		}
+		for _, f := range zr.File {
+			names[path.Base(f.Name)] = true
+		}
+	case "tar":
+		tr := tar.NewReader(bytes.NewReader(b))
+		for {
+			h, err := tr.Next()
+			if err == io.EOF {
+				break
+			}
+			if err != nil {
+				return false
+			}
+			names[path.Base(h.Name)] = true
+		}
+	}
+	return names["a.txt"] && names["b.txt"]
+}
+
 func gz(b []byte) []byte {
 	var buf bytes.Buffer
 	w := gzip.NewWriter(&buf)
@@ -377,6 +409,11 @@ func runSite(mode string) sim.RigFunc {
 			os.WriteFile(p, b, 0644)
 			os.Chtimes(p, fixed, fixed)
 		}
+		// a directory offered as an archive: two regular files and a symbolic link
+		os.MkdirAll(filepath.Join(r.root, "pub"), 0755)
+		put("pub/a.txt", []byte("PUB-A-CONTENT\n"))
+		put("pub/b.txt", bytes.Repeat([]byte("PUB-B-CONTENT\n"), 500))
+		os.Symlink("a.txt", filepath.Join(r.root, "pub", "link-to-a"))
 		// static fixtures with precompressed siblings that are valid encodings of the original
 		for _, f := range []string{"static/a.txt", "static/b.html", "static/c.css"} {
 			content := bytes.Repeat([]byte("STATIC:"+f+":0123456789abcdef\n"), 20+st.Draw(60))
@@ -433,6 +470,7 @@ func runSite(mode string) sim.RigFunc {
 			r.logExcept = "/p/quiet"
 		}
 		r.log2 = mode == "C20" && pick(50)
+		r.archive = mode == "C12" && pick(30)
 		// the log format of this run: the request id first, then a random arrangement of fragments
 		perm := make([]int, len(logFrags))
 		for i := range perm {
@@ -534,6 +572,9 @@ func runSite(mode string) sim.RigFunc {
 			if mode == "C20" && r.logExcept != "" && !twin {
 				// rewrites that cross the excepted prefix: what is excepted is decided by the path the client asked for
 				b.WriteString("\trewrite /p/into /p/quiet/zz\n\trewrite /p/quiet/out /p/x\n")
+			}
+			if r.archive && !twin {
+				b.WriteString("\tbrowse /pub {\n\t\tservearchive zip tar\n\t}\n")
 			}
 			if mode == "C19" && r.hasMatchers {
 				// directives whose matchers and targets are evaluated on request text
@@ -710,6 +751,10 @@ func (r *siteRig) genReq(id, site string) *sreq {
 		if r.mode != "C20" && (q.path == "/p/into" || q.path == "/p/quiet/out") {
 			q.path, q.noLog = "/p/quiet/x", true
 		}
+	case cls == 8 && r.archive:
+		q.path = "/pub/"
+		q.archiveOf = []string{"zip", "tar"}[st.Draw(2)]
+		sc.mode = "static"
 	case cls == 6 && r.hasMime:
 		q.path = "/p/file.xyz"
 	case cls == 7 && r.limitSub != 0:
@@ -720,6 +765,10 @@ func (r *siteRig) genReq(id, site string) *sreq {
 		q.path = []string{"/p", "/p/x", "/p/y.html"}[st.Draw(3)]
 	}
 	q.query = "q=" + []string{"1", "%7Bhost%7D", "{host}", "a%20b", "{~ck}"}[st.Draw(5)]
+	if q.archiveOf != "" {
+		q.query = "archive=" + q.archiveOf
+		r.c.Probe("directory-archive-requested")
+	}
 	if pick(70) {
 		q.hdrs = append(q.hdrs, [2]string{"X-Evil", evilValues[st.Draw(len(evilValues))]})
 	}
@@ -1052,6 +1101,16 @@ func (r *siteRig) judge() {
 			if resp.Status != wantStatus {
 				c.Violate("C12/status-differs", fmt.Sprintf("want=%d/%s", wantStatus, sc.mode), "request %s (%s %s): handler %s, client got status %d, want %d (%s)", q.id, q.method, q.path, sc.describe(), resp.Status, wantStatus, r.dirSig())
 			}
+		}
+		if q.archiveOf != "" {
+			// one response: either an error status, or a 200 whose body IS the archive
+			if resp.Status == 200 && q.method != "HEAD" {
+				raw, derr := decodeBody(resp.Header.Get("Content-Encoding"), resp.Body)
+				if derr != nil || !validArchive(q.archiveOf, raw) {
+					c.Violate("C12/body-altered", "archive/"+q.archiveOf, "request %s (GET /pub/?archive=%s): answered 200 %s, but the %d body bytes are not a %s archive of the directory: %q", q.id, q.archiveOf, resp.Header.Get("Content-Type"), len(raw), q.archiveOf, trunc(raw, 120))
+				}
+			}
+			continue
 		}
 		if q.path == "/teapot" || strings.HasPrefix(q.path, "/secret") || (sc.mode == "static" && wantStatus == 404) {
 			if resp.Status != wantStatus {
